@@ -733,4 +733,147 @@ theorem sparse_ofGraph (d : Bool) (N : Nat) (a : Nat → Nat → Bool) (w ea) :
 theorem forall_lt_lt {N : Nat} {P : Nat → Nat → Prop} (h : ∀ i, i < N → ∀ j, j < N → P i j) :
     ∀ i j, i < N → j < N → P i j := fun i j hi hj => h i hi j hj
 
+theorem setWeights_ofGraph (d : Bool) (N : Nat) (a : Nat → Nat → Bool) (w : List Rat) (ea)
+    (w' : Option (List Rat)) (h : ∀ x, w' = some x → x.length = N) :
+    setWeights (ofGraph d N a w ea) w' = .ok (ofGraph d N a (weightsOf N w') ea) := by
+  cases w' with
+  | none => rfl
+  | some x =>
+    rw [setWeights_some _ _ (h x rfl)]
+    rfl
+
+theorem init_dense_none (d : Bool) (N : Nat) (hN : 2 ≤ N) (a : Nat → Nat → Bool) :
+    init d (.sparse (ofDenseMat N N (ind a))) none
+      = .ok (ofGraph d N a (List.replicate N 1) none) := by
+  unfold init construct
+  simp only [setAdjacency_dense _ N hN a]
+  rfl
+
+theorem igAdj_simple (g : IGraph) (hs : SimpleEdges g.directed g.edges) (i j : Nat) :
+    igAdj g i j = ind (rel g.directed g.edges) i j := by
+  unfold igAdj ind rel
+  obtain ⟨hnd, hsw⟩ := hs
+  cases hd : g.directed
+  · have hsw' := hsw hd
+    simp only [Bool.false_eq_true, if_false, Bool.not_false, Bool.true_and]
+    rw [hnd.count, hnd.count]
+    by_cases hij : i = j
+    · subst hij
+      have : (i, i) ∉ g.edges := fun h => hsw' (i, i) h h
+      simp [this]
+    · have hne : (i == j) = false := by simpa using hij
+      rw [hne]
+      by_cases h1 : (i, j) ∈ g.edges
+      · have h2 : (j, i) ∉ g.edges := hsw' (i, j) h1
+        simp [h1, h2]
+      · by_cases h2 : (j, i) ∈ g.edges <;> simp [h1, h2]
+  · simp only [if_true, Bool.not_true, Bool.false_and, Bool.or_false]
+    rw [hnd.count]
+    by_cases h1 : (i, j) ∈ g.edges <;> simp [h1]
+
+/-! ### link attributes -/
+
+theorem mem_zip_map {es : List (Nat × Nat)} {g : Nat × Nat → Rat} {q : (Nat × Nat) × Rat}
+    (h : q ∈ es.zip (es.map g)) : q.1 ∈ es ∧ q.2 = g q.1 := by
+  induction es with
+  | nil => simp at h
+  | cons e es ih =>
+    simp only [List.map_cons, List.zip_cons_cons, List.mem_cons] at h
+    rcases h with h | h
+    · subst h; simp
+    · have := ih h; exact ⟨List.mem_cons_of_mem _ this.1, this.2⟩
+
+theorem zip_map_mem {es : List (Nat × Nat)} {g : Nat × Nat → Rat} {e : Nat × Nat} (h : e ∈ es) :
+    (e, g e) ∈ es.zip (es.map g) := by
+  induction es with
+  | nil => simp at h
+  | cons x es ih =>
+    simp only [List.map_cons, List.zip_cons_cons, List.mem_cons]
+    rcases List.mem_cons.1 h with h | h
+    · left; rw [h]
+    · right; exact ih h
+
+/-- the predicate `link_attribute` uses to find the edge of a cell -/
+def cellPred (d : Bool) (i j : Nat) (e : Nat × Nat) : Bool := e == (i, j) || (!d && e == (j, i))
+
+theorem lastVal_map (d : Bool) (es : List (Nat × Nat)) (g : Nat × Nat → Rat) (i j : Nat)
+    (hg : d = false → g (j, i) = g (i, j)) :
+    (match lastVal es (es.map g) (cellPred d i j) with
+      | some x => x
+      | none => 0) = if rel d es i j then g (i, j) else 0 := by
+  unfold lastVal
+  cases hf : (es.zip (es.map g)).reverse.find? (fun q => cellPred d i j q.1) with
+  | none =>
+    rw [List.find?_eq_none] at hf
+    have : rel d es i j = false := by
+      rw [Bool.eq_false_iff]
+      intro hr
+      unfold rel at hr
+      simp only [Bool.or_eq_true, decide_eq_true_eq, Bool.and_eq_true, Bool.not_eq_true'] at hr
+      rcases hr with hr | ⟨hd, hr⟩
+      · exact hf _ (List.mem_reverse.2 (zip_map_mem hr)) (by simp [cellPred])
+      · exact hf _ (List.mem_reverse.2 (zip_map_mem hr)) (by simp [cellPred, hd])
+    simp [this]
+  | some q =>
+    have hp := List.find?_some hf
+    have hm := mem_zip_map (List.mem_reverse.1 (List.mem_of_find?_eq_some hf))
+    simp only [cellPred, Bool.or_eq_true, beq_iff_eq, Bool.and_eq_true, Bool.not_eq_true'] at hp
+    simp only [Option.map_some]
+    rcases hp with hp | ⟨hd, hp⟩
+    · have : rel d es i j = true := by
+        unfold rel; simp [← hp, hm.1]
+      rw [this, hm.2, hp]; rfl
+    · have : rel d es i j = true := by
+        unfold rel; simp [← hp, hm.1, hd]
+      rw [this, hm.2, hp, hg hd]; rfl
+
+theorem cellPred_symm (i j : Nat) : cellPred false i j = cellPred false j i := by
+  funext e
+  simp [cellPred, Bool.or_comm]
+
+theorem linkAttr_symm (net : Net) (hd : net.directed = false) (f : Nat → Nat → Rat)
+    (h : linkAttr net = some f) (i j : Nat) : f j i = f i j := by
+  unfold linkAttr at h
+  split at h
+  · simp only [Option.some.injEq] at h; subst h; rfl
+  · cases he : net.eattr with
+    | none => rw [he] at h; cases h
+    | some vs =>
+      rw [he] at h
+      simp only [Option.map_some, Option.some.injEq] at h
+      subst h
+      simp only [hd]
+      have := cellPred_symm i j
+      unfold cellPred at this
+      rw [this]
+
+theorem linkAttr_zero (net : Net) (f : Nat → Nat → Rat) (h : linkAttr net = some f) (i j : Nat)
+    (hr : rel net.directed net.graph i j = false) : f i j = 0 := by
+  unfold linkAttr at h
+  split at h
+  · simp only [Option.some.injEq] at h; subst h; rfl
+  · cases he : net.eattr with
+    | none => rw [he] at h; cases h
+    | some vs =>
+      rw [he] at h
+      simp only [Option.map_some, Option.some.injEq] at h
+      subst h
+      simp only
+      have hnone : lastVal net.graph vs
+          (fun e => e == (i, j) || (!net.directed && e == (j, i))) = none := by
+        unfold lastVal
+        rw [Option.map_eq_none_iff, List.find?_eq_none]
+        intro q hq hp
+        have hmem : q.1 ∈ net.graph := (List.of_mem_zip (List.mem_reverse.1 hq)).1
+        unfold rel at hr
+        simp only [Bool.or_eq_false_iff, decide_eq_false_iff_not, Bool.and_eq_false_iff,
+          Bool.not_eq_eq_eq_not, Bool.not_false] at hr
+        simp only [Bool.or_eq_true, beq_iff_eq, Bool.and_eq_true, Bool.not_eq_true'] at hp
+        rcases hp with hp | ⟨hd, hp⟩
+        · exact hr.1 (hp ▸ hmem)
+        · rcases hr.2 with h2 | h2
+          · rw [hd] at h2; cases h2
+          · exact h2 (hp ▸ hmem)
+      rw [hnone]
+
 end Pyunicorn.Repr
